@@ -283,6 +283,22 @@ func c11(p *model.Prog, r *report.Result) {
 		w, rdS := layoutSet(wl, pr.w, abs), layoutSet(rl, pr.r, nil)
 		r.Check(w != "" && w == rdS, "C11.R3", fkey(pack, "layout", pr.r), p.Pos(pack.Pos()), "writer "+w+" == reader "+rdS, "tag field "+pr.r+" is written at "+w+" but read at "+rdS)
 	}
+	// every header write of the two writers happens on every path (a byte that is written only
+	// for some values keeps what the buffer held before)
+	for _, wfn := range []*ssa.Function{pack, mod} {
+		for _, it := range writerLayoutDeep(wfn) {
+			if it.Base != nil {
+				continue
+			}
+			in := it.In
+			host := in.Parent()
+			skip := model.PathQuery{Stop: func(x ssa.Instruction) bool { return x == in }, Target: func(x ssa.Instruction) bool {
+				_, isRet := x.(*ssa.Return)
+				return isRet
+			}}.Find(host)
+			r.Check(skip == nil, "C11.R3", fkey(wfn, "unconditional", it.String()), p.InstrPos(in), "written on every path", "the tag header byte(s) "+it.String()+" are written only on some paths: for the other values the field keeps its previous content (re-stamping a tag whose old timestamp was >= 2^24 to a small one leaves the old extension byte, and the tag reads back with a different timestamp)")
+		}
+	}
 	mts := layoutSet(ml, "timestamp", nil)
 	r.Check(mts == layoutSet(rl, "Timestamp", nil), "C11.R3", fkey(mod, "layout", "Timestamp"), p.Pos(mod.Pos()), "ModTagTimestamp rewrites "+mts, "ModTagTimestamp writes the timestamp at "+mts+" but the reader reads "+layoutSet(rl, "Timestamp", nil))
 	// bit-level content: bytes 4..6 carry timestamp bits 0..23, byte 7 carries bits 24..31
@@ -419,6 +435,8 @@ func c11(p *model.Prog, r *report.Result) {
 		})
 	}
 	r.Check(okNeed, "C11.R3", fkey(rt, "layout", "needed"), p.Pos(rt.Pos()), "reader consumes DataSize+4 bytes after the header", "ReadTag no longer consumes body plus the 4-byte previous-tag-size")
+
+	w5CacheKind(p, r, "C11.R8")
 
 	// ---------------------------------------------------------------- R4
 	r.Rule("C11.R4", "httpflv.FlvHeader is initialised to 46 4c 56 01 05 00 00 00 09 00 00 00 00 (13 bytes = flvHeaderSize) and nothing else stores to it")
